@@ -38,7 +38,11 @@ func (t *ScalarType) IsAssignable(o px.Type, g px.Guard) bool {
 		return GuardedIsAssignable(stringTypeDefault, o, g) ||
 			GuardedIsAssignable(numericTypeDefault, o, g) ||
 			GuardedIsAssignable(booleanTypeDefault, o, g) ||
-			GuardedIsAssignable(regexpTypeDefault, o, g)
+			GuardedIsAssignable(regexpTypeDefault, o, g) ||
+			// the types of the other values that IsInstance admits
+			GuardedIsAssignable(timespanTypeDefault, o, g) ||
+			GuardedIsAssignable(timestampTypeDefault, o, g) ||
+			GuardedIsAssignable(semVerTypeDefault, o, g)
 	}
 }
 
